@@ -31,3 +31,38 @@ pub fn k_zoned_fixed_new(s: i64, ns: i32, off: i32) -> Option<(i32, D3, T4, (i64
     let t = z.timestamp();
     Some((z.offset().seconds(), d3(dt.date()), t4(dt.time()), (t.as_second(), t.subsec_nanosecond()), f::to_epoch_day(d3(dt.date()))))
 }
+
+// ---- C06 for fixed-offset zones
+type TS = (i64, i32);
+#[inline(always)]
+fn zts(z: &Zoned) -> TS { let t = z.timestamp(); (t.as_second(), t.subsec_nanosecond()) }
+
+/// time-unit span and absolute duration: the instant moves by exactly that many nanoseconds; zone kept
+pub fn k_zoned_fixed_add_time(s: i64, ns: i32, off: i32, neg: bool, h: i64, mi: i64, sec: i64, ms: i64, us: i64, nanos: i64) -> Option<(Option<(TS, i32)>, Option<(TS, i32)>)> {
+    let o = Offset::from_seconds(off).ok()?;
+    let z = Zoned::new(Timestamp::new(s, ns).ok()?, TimeZone::fixed(o));
+    let sp = mkspan_time(neg, h, mi, sec, ms, us, nanos)?;
+    let a = z.checked_add(sp).ok().map(|r| (zts(&r), r.offset().seconds()));
+    let b = z.checked_sub(sp).ok().map(|r| (zts(&r), r.offset().seconds()));
+    Some((a, b))
+}
+pub fn k_zoned_fixed_add_sdur(s: i64, ns: i32, off: i32, ds: i64, dn: i32) -> Option<Option<(TS, i32)>> {
+    let o = Offset::from_seconds(off).ok()?;
+    let z = Zoned::new(Timestamp::new(s, ns).ok()?, TimeZone::fixed(o));
+    let d = mksdur(ds, dn)?;
+    Some(z.checked_add(d).ok().map(|r| (zts(&r), r.offset().seconds())))
+}
+/// weeks and days in a fixed-offset zone are exactly 7*24h and 24h
+pub fn k_zoned_fixed_add_days(s: i64, ns: i32, off: i32, neg: bool, w: i64, d: i64) -> Option<Option<(TS, i32)>> {
+    let o = Offset::from_seconds(off).ok()?;
+    let z = Zoned::new(Timestamp::new(s, ns).ok()?, TimeZone::fixed(o));
+    let sp = mkspan_cal(neg, 0, 0, w, d)?;
+    Some(z.checked_add(sp).ok().map(|r| (zts(&r), r.offset().seconds())))
+}
+/// start of day = the instant of civil midnight of the same civil date
+pub fn k_zoned_fixed_start_of_day(s: i64, ns: i32, off: i32) -> Option<Option<(TS, T4, i32)>> {
+    let o = Offset::from_seconds(off).ok()?;
+    let z = Zoned::new(Timestamp::new(s, ns).ok()?, TimeZone::fixed(o));
+    let tod = t4(z.time());
+    Some(z.start_of_day().ok().map(|r| (zts(&r), tod, r.offset().seconds())))
+}
